@@ -85,7 +85,7 @@ var typeNamePool = []string{"Aa", "Ab", "Ba", "Bb", "Ca", "Dd", "Ee", "Mm", "Na"
 
 func drawSchemaCase(t *rapid.T) SchemaCase {
 	var c SchemaCase
-	n := rapid.IntRange(1, 6).Draw(t, "ntypes")
+	n := rapid.SampledFrom([]int{1, 2, 2, 2, 3, 3, 3, 3, 4, 4, 4, 4, 4, 5, 5, 5, 5, 6, 6, 6}).Draw(t, "ntypes")
 	// distinct names; their sort order is independent of the index order
 	namePerm := rapid.Permutation(typeNamePool).Draw(t, "names")
 	fieldNo := 0
@@ -111,7 +111,7 @@ func drawSchemaCase(t *rapid.T) SchemaCase {
 	if mode >= 2 { // 80 %: at least one cycle
 		ncyc := rapid.IntRange(1, 2).Draw(t, "ncycles")
 		for k := 0; k < ncyc && next < n; k++ {
-			l := rapid.IntRange(1, 4).Draw(t, "cyclelen")
+			l := rapid.SampledFrom([]int{1, 2, 2, 2, 3, 3, 4}).Draw(t, "cyclelen")
 			if l > n-next {
 				l = n - next
 			}
